@@ -485,6 +485,19 @@ func c11(c *Ctx) {
 		if n == 0 {
 			c.R.Unknown(load.FuncName(fn)+": writes", c.pos(fn.Pos()), "no dry-run write found")
 		}
+		// no admission without validation: every way to admit the object (nil
+		// error) lies beyond the success edge of the XRD's own validation
+		ne := 0
+		for _, er := range cfgx.ErrorReturnsFrom(entryEdges(fn), nil) {
+			if er.NonNil || classifyErr(er.Val) == "nonnil" || hasSuffixCall(underIface(er.Val), "field.ErrorList).ToAggregate") {
+				continue // rejects: the aggregate of the (non-empty) validation errors
+			}
+			ne++
+			c.requireCross(load.FuncName(fn)+": admits only validated objects #"+itoa(ne), er.At, okE, "no validation errors from "+it.val[1:])
+		}
+		if ne == 0 {
+			c.R.Unknown(load.FuncName(fn)+": admitting returns", c.pos(fn.Pos()), "no return that admits the object found")
+		}
 	}
 	nW := 0
 	for _, f := range c.P.PkgFunctions(wh) {
